@@ -9,6 +9,7 @@ package sched
 import (
 	"fmt"
 	"os"
+	"sort"
 	"strings"
 	"testing"
 	"testing/synctest"
@@ -54,8 +55,21 @@ func (x *Exec) Trace() []string {
 type Body func() Outcome
 
 // RunOnce executes body under the scheduler following prefix (default choice afterwards).
-func RunOnce(prefix []int, paranoid bool, body Body) Exec {
-	var res Exec
+func RunOnce(prefix []int, paranoid bool, body Body) (res Exec) {
+	defer func() {
+		// synctest panics in the caller when the bubble's root returns while goroutines are
+		// still durably blocked: that is a deadlock of the code under test (or a goroutine
+		// that outlived the call), reported as such instead of killing the worker.
+		if r := recover(); r != nil {
+			vsched.S = nil
+			msg := fmt.Sprint(r)
+			if !strings.Contains(msg, "deadlock") {
+				panic(r)
+			}
+			res.Deadlock = true
+			res.Leaked = append(res.Leaked, "bubble: "+msg)
+		}
+	}()
 	synctest.Test(T, func(t *testing.T) {
 		s := &vsched.Sched{Prefix: prefix, Horizon: 20 * time.Minute, Paranoid: paranoid, MaxSteps: 20000}
 		vsched.S = s
@@ -117,6 +131,18 @@ func (e *Explorer) verdict(x *Exec) (string, string) {
 		if x.TimedOut {
 			why = "did-not-return"
 		}
+		// which library threads are stuck where (harness peers excluded) makes the key specific
+		var sites []string
+		for _, l := range x.Leaked {
+			if strings.HasPrefix(l, "bubble:") || strings.Contains(l, "(peer") || strings.Contains(l, "(probe-peer") || strings.Contains(l, "(canceller") {
+				continue
+			}
+			if i := strings.LastIndex(l, "@"); i >= 0 {
+				sites = append(sites, l[i+1:])
+			}
+		}
+		sort.Strings(sites)
+		why += "[" + strings.Join(sites, ",") + "]"
 		return kb + "/" + why, fmt.Sprintf("execution did not finish (%s at fake time %v); threads not done: %v; trace tail: %v", why, x.FakeTime, x.Leaked, tailS(x.Trace(), 25))
 	}
 	if e.PostCheck != nil {
@@ -204,6 +230,7 @@ func (e *Explorer) runBound(bound int) Stats {
 	memo := map[uint64]map[uint64]int{}
 	splitCounter := int64(0)
 	stop := false
+	stuck := 0
 	var rec func(prefix []int, depth int)
 	rec = func(prefix []int, depth int) {
 		if stop {
@@ -243,9 +270,15 @@ func (e *Explorer) runBound(bound int) Stats {
 			c.Violation(key, e.Scenario+"@"+choicesStr(x.Choices), detail+fmt.Sprintf(" [bound=%d schedule=%s obs=%q]", bound, choicesStr(x.Choices), x.Out.Obs),
 				map[string]any{"choices": x.Choices, "trace": tailS(x.Trace(), 120)})
 			if x.Deadlock || len(x.Panics) > 0 {
-				// goroutines may be stuck inside the bubble: stop exploring this scenario
-				stop = true
-				return
+				// goroutines stay stuck inside the dead bubble (a leak, nothing more); keep
+				// exploring, but not without limit
+				stuck++
+				if stuck > 300 {
+					c.Note("%s: stopped after %d stuck executions", e.Scenario, stuck)
+					c.NotExhaustive()
+					stop = true
+					return
+				}
 			}
 		}
 		pre := 0
@@ -332,4 +365,18 @@ func Account(c *vk.Ctx, group string, st Stats) {
 	if st.BudgetHit {
 		c.NotExhaustive()
 	}
+}
+
+// ReplayAndPrint re-executes one recorded schedule and prints its trace and verdict.
+func ReplayAndPrint(c *vk.Ctx, e *Explorer, choices []int) {
+	x := e.Replay(choices)
+	k, d := e.verdict(&x)
+	fmt.Printf("replay %s: obs=%q key=%q %s\n", c.Only, x.Out.Obs, k, d)
+	for _, l := range x.Trace() {
+		fmt.Println("   ", l)
+	}
+	if k != "" {
+		c.Violation(k, c.Only, d, nil)
+	}
+	c.Eval("replay", 1)
 }
